@@ -8,7 +8,7 @@ MODULE = r'''
 #[cfg(test)]
 mod verif_replay_d {
     use super::*;
-    const URIS: [&str; 6] = ["http://example.org/v1/types", "http://example.org/v2/types", "urn:a:typ", "http://x.org/a-types", "http://x.org/ty.pes", "http://example.org/other"];
+    const URIS: [&str; 9] = ["http://example.org/pr\u{fc}fung", "http://example.org/v1/types", "http://example.org/v2/types", "urn:a:typ", "http://x.org/a-types", "http://x.org/ty.pes", "http://example.org/other", "http://example.org/billing/", "http://example.org/billing"];
     const PFX: [&str; 2] = ["a", "b"];
     #[derive(Clone, Copy, Debug)]
     enum Op { Add(usize, usize), Switch(usize) }
@@ -70,7 +70,7 @@ mod verif_replay_d {
 '''
 
 
-def search(repo):
+def _search(repo):
     rc, outp = run_test_module(MODULE, 'verif_replay_d::sequences', repo, host_file='zeep-lib/src/model/doc.rs')
     res = {'steps_checked': 0, 'seq_anomalies': [], 'merge_anomalies': [], 'n_seq': 0, 'n_merge': 0}
     for line in outp.splitlines():
@@ -91,3 +91,14 @@ def search(repo):
     if res['steps_checked'] == 0:
         res['error'] = outp[-1500:]
     return res
+
+
+_MEMO = {}
+
+
+def search(repo, *a, **kw):
+    """one run of the harness per check process and tree (the result is shared by all obligations it decides)"""
+    key = (repo, a, tuple(sorted(kw.items())))
+    if key not in _MEMO:
+        _MEMO[key] = _search(repo, *a, **kw)
+    return _MEMO[key]
